@@ -9,7 +9,7 @@
 namespace sim {
 
 template <class F, class E>
-inline void post_api(F& f, const E& x, int api) {
+inline void post_api(F& f, E& x, int api) {   // non-const: back11 cannot dispatch const events through chain rows
     if (api == API_PROCESS) f.process_event(x);
     else if (api == API_ENQUEUE) f.enqueue_event(x);
     else {
